@@ -305,6 +305,11 @@ func c03Unit(c *fw.Ctx, k *fw.K, i int) {
 				k.Count("unit_rejected_" + v.kind)
 				continue
 			}
+			if v.kind == "outer-sw" {
+				// the statement demands it explicitly: the protected status must equal the outer one
+				k.Violation("sm:decode:accepts:outer-status-differs-from-protected", fmt.Sprintf("response accepted although its outer status word differs from the protected status (%04x)", sw), det(v.kind, v.b))
+				continue
+			}
 			if rr != nil && bytesEq(rr.Data, plain) && rr.Status == sw {
 				k.Count("unit_accepted_equivalent_" + v.kind)
 				continue
